@@ -476,7 +476,6 @@ package consensus
 //@   requires @decoded-txn-has-resolutions forall j in 0..len(txn.FileContractResolutions) :: !isnil(txn.FileContractResolutions[j].Resolution)
 //@   prop C08 C02 C03 C01 C04 C10
 //@   requires ms.base.Network != nil && msWF(*ms) && len(txn.SiacoinInputs) < NB
-//@   requires cheight(ms.base) >= ms.base.Network.HardforkV2.EphemeralOutputHeight
 //@   requires forall i in 0..len(txn.SiacoinOutputs)+1 :: sumSCO(txn.SiacoinOutputs, i) < types.M128
 //@   requires forall i in 0..len(txn.FileContracts) :: types.u128(txn.FileContracts[i].RenterOutput.Value) + types.u128(txn.FileContracts[i].HostOutput.Value) < types.M128
 //@   requires forall i in 0..len(txn.FileContracts)+1 :: sumSCO(txn.SiacoinOutputs, len(txn.SiacoinOutputs)) + sumV2FC(ms.base, txn.FileContracts, i) < types.M128
